@@ -180,6 +180,11 @@ func C04(r *h.Run) {
 					if !withTrailers {
 						tr, tv = http.Header{}, verdict{Kind: "malformed"}
 					}
+					if fin != h.FinCleanEOF && fin != h.FinEOFWithData {
+						// net/http makes the trailers visible when the body read reaches io.EOF: after a
+						// failed read the client has none to look at, whatever the peer had sent
+						tv = verdict{Kind: "malformed"}
+					}
 					announced := trailerMode == 2
 					if announced {
 						// the response announced its trailers ("Trailer: Grpc-Status, Grpc-Message":
@@ -281,7 +286,11 @@ func C04(r *h.Run) {
 					if cfg.Proto == "grpc" {
 						sp = verdict{Kind: "malformed"}
 					}
-					r.Case("client_cut_unary", fmt.Sprintf("CUnary %s %d %s %s %s %s %s (%s)", cfg.coqProto(), cfg.Max, cfg.coqAlgo(), h.CoqBytesList(chunks), fin.Coq(), v.coq(), sp.coq(), o.coq()),
+					utv := v
+					if fin != h.FinCleanEOF && fin != h.FinEOFWithData {
+						utv = verdict{Kind: "malformed"} // no trailers become visible after a failed read
+					}
+					r.Case("client_cut_unary", fmt.Sprintf("CUnary %s %d %s %s %s %s %s (%s)", cfg.coqProto(), cfg.Max, cfg.coqAlgo(), h.CoqBytesList(chunks), fin.Coq(), utv.coq(), sp.coq(), o.coq()),
 						map[string]any{"in": in, "impl_observed": o.String()})
 					r.Sample("client_cut_unary", map[string]any{"in": in, "observed": o.String()})
 					complete := cut == len(ubody) && v.Kind == "ok" && (cfg.Proto != "grpc" || fin == h.FinCleanEOF)
